@@ -555,7 +555,7 @@ def run(ctx: Ctx) -> None:
     shards.append(('mode', 'sub', seeds[k], n_sub, scratch))
     k += 1
     for fam in ('shortcircuit', 'alias', 'precedence', 'escapes', 'floordiv', 'sortedkeys'):
-        shards.append(('family', fam, seeds[k], n_fam, scratch))
+        shards.append(('family', fam, seeds[k], n_fam * (3 if fam == 'alias' else 1), scratch))
         k += 1
     if not ctx.quick:
         # fresh-subprocess-only runs: guards against in-process state masking a disagreement
